@@ -545,6 +545,10 @@ pub enum Act {
     Satisfy,
     /// Flush tail step: everything fed, released, closed as far as possible.
     Flush,
+    /// Deliver everything that is left to every input and close them all:
+    /// the upstream blocks have finished. What follows explores the end of
+    /// stream with the output side still trickling.
+    Finish,
 }
 
 impl Act {
@@ -557,6 +561,7 @@ impl Act {
             Act::Nop => json!("nop"),
             Act::Satisfy => json!("satisfy"),
             Act::Flush => json!("flush"),
+            Act::Finish => json!("finish"),
         }
     }
     pub fn from_json(v: &Value) -> Self {
@@ -564,6 +569,7 @@ impl Act {
             return match s {
                 "satisfy" => Act::Satisfy,
                 "flush" => Act::Flush,
+                "finish" => Act::Finish,
                 _ => Act::Nop,
             };
         }
@@ -630,6 +636,16 @@ fn apply(inst: &mut Instance, a: Act, last: Option<&Verdict>) {
             }
         }
         Act::Flush => {}
+        Act::Finish => {
+            // (An upstream block cannot finish before its data is out: an
+            // input whose stream is too full for the rest stays open.)
+            for p in &mut inst.ins {
+                p.feed(usize::MAX / 4);
+                if p.remaining() == 0 && !p.closed() {
+                    p.close();
+                }
+            }
+        }
         Act::Feed(i, n) => {
             inst.ins[i].feed(n);
         }
@@ -700,7 +716,7 @@ pub fn execute(mut inst: Instance, acts: &[Act], flush: bool) -> Exec {
         let last = steps.last().map(|s: &StepObs| s.verdict.clone());
         let s = step(&mut inst, *a, last.as_ref());
         let bad = matches!(s.verdict, Verdict::Panic(_) | Verdict::Err(_));
-        let eof = matches!(s.verdict, Verdict::Eof);
+        let eof = matches!(s.verdict, Verdict::Eof) || runner_retires(&inst, &s);
         steps.push(s);
         if bad {
             ok = false;
@@ -740,6 +756,7 @@ pub fn execute(mut inst: Instance, acts: &[Act], flush: bool) -> Exec {
             let s = step(&mut inst, Act::Flush, None);
             let act = s.activity;
             let v = s.verdict.clone();
+            let retired = runner_retires(&inst, &s);
             steps.push(s);
             match v {
                 Verdict::Panic(_) | Verdict::Err(_) => break,
@@ -748,6 +765,10 @@ pub fn execute(mut inst: Instance, acts: &[Act], flush: bool) -> Exec {
                     break;
                 }
                 _ => {}
+            }
+            if retired {
+                completed = true;
+                break;
             }
             if act == 0 {
                 idle += 1;
@@ -772,6 +793,25 @@ pub fn execute(mut inst: Instance, acts: &[Act], flush: bool) -> Exec {
         completed,
         fed,
     }
+}
+
+/// Would a runner stop calling the block after this step? Both runners retire
+/// a block that reports a wait while its own eof() is true; the multithreaded
+/// one also when the stream it waits for can never deliver (input closed with
+/// less than `need` buffered). A retired block is never called again, so
+/// whatever it still holds is lost: the execution ends here.
+pub fn runner_retires(inst: &Instance, s: &StepObs) -> bool {
+    if s.eof {
+        return true;
+    }
+    if let Verdict::WaitStream { id, need, closed: true } = &s.verdict {
+        for (i, p) in inst.ins.iter().enumerate() {
+            if p.id() == *id && p.closed() && s.ins[i].1 < *need {
+                return true;
+            }
+        }
+    }
+    false
 }
 
 /// Is `a` a prefix of `b`, output by output?
